@@ -22,7 +22,7 @@ vars == <<desc, term, dense, pc, hist>>
 Quick == Tier = "quick"
 Sizes == IF Quick THEN <<<<1, 1>>, <<3, 3>>, <<4, 4>>, <<2, 3>>, <<6, 4>>>>
          ELSE <<<<1, 1>>, <<2, 2>>, <<3, 3>>, <<4, 4>>, <<6, 6>>, <<2, 3>>, <<3, 2>>, <<1, 3>>, <<4, 6>>, <<6, 4>>>>
-Batches == IF Quick THEN <<<<>>, <<2>>, <<2, 1>>, <<1, 3>>>>
+Batches == IF Quick THEN <<<<>>, <<2>>, <<2, 1>>, <<1, 3>>, <<2, 3>>>>
            ELSE <<<<>>, <<2>>, <<1>>, <<2, 1>>, <<1, 3>>, <<2, 3>>>>
 Depths == IF Quick THEN <<0, 1>> ELSE <<0, 1, 2>>
 SeedsPer == IF Quick THEN 1 ELSE 2
